@@ -82,7 +82,10 @@ bool OfflinePacketFilter::matches_filter(const uint8_t* buffer, uint32_t total_s
 
 bool OfflinePacketFilter::matches_filter(PDU& pdu) const {
     PDU::serialization_type buffer = pdu.serialize();
-    return matches_filter(&buffer[0], static_cast<uint32_t>(buffer.size()));
+    // An empty serialization has no first element to point at
+    const uint8_t empty_frame = 0;
+    return matches_filter(buffer.empty() ? &empty_frame : &buffer[0], 
+                          static_cast<uint32_t>(buffer.size()));
 }
 
 } // Tins
